@@ -65,6 +65,10 @@ type Evaluator struct {
 	// partial application are re-evaluated at each call of the closure (and not at
 	// all when it is created), which is what fcPartialApplyGo emits.
 	PartialReeval bool
+	// SMatchVarLeak: the defect model of the second recorded finding - fc lowers `match t with | "a" -> e | v -> f`
+	// to `switch v := t; v { case "a": e; default: f }`, so v is bound in the literal arms as well and captures an
+	// outer variable of the same name there
+	SMatchVarLeak bool
 	Globals       map[string]Value
 	Steps         int
 }
@@ -176,6 +180,8 @@ func (ev *Evaluator) Eval(e Expr, env *Env) Value {
 	switch v := e.(type) {
 	case IntLit:
 		return v.V
+	case StrSrc:
+		return v.V
 	case StrLit:
 		return v.V
 	case RawStr:
@@ -234,6 +240,9 @@ func (ev *Evaluator) Eval(e Expr, env *Env) Value {
 		t := ev.Eval(v.Target, env).(string)
 		for _, a := range v.Lits {
 			if a.Lit == t {
+				if ev.SMatchVarLeak && v.VarName != "" {
+					return ev.EvalBlock(a.Body, env.With(v.VarName, t))
+				}
 				return ev.EvalBlock(a.Body, env)
 			}
 		}
